@@ -393,6 +393,17 @@ func GenTopLevel(r *RNG, depth int) (stmts []string, globals []string, feat map[
 		g.w("println(\"lits\", area(2, 3), grow(rect), rect)\n")
 		g.declare("rect", "int")
 	}
+	// a spread appended onto a nil slice, followed by statements that push operands: the new slice owns its elements
+	if r.Bool() {
+		g.f("append-spread-onto-nil")
+		k := r.Intn(50)
+		g.w("var all []int\n")
+		g.w("part := []int{%d, %d, %d}\n", k, k+1, k+2)
+		g.w("all = append(all, part...)\n")
+		g.w("more := []int{7, 8, 9}\n")
+		g.w("println(\"all\", all[2], all[1], all[0], more[0]+more[1]*more[2])\n")
+		g.w("all[0] + all[1]*100\n")
+	}
 	g.w("sf := scaleF(1.5)\n")
 	g.w("hi := halfI(9)\n")
 	g.w("println(\"stale\", sf, hi, halfI(7))\n")
